@@ -640,8 +640,13 @@ func doSup(c *core.Ctx, mode string, ref *core.N, boots []*core.N) (result, resu
 		}
 		rf := c.TmpFile(refTxt)
 		bf := c.TmpFile(sb.String())
-		f := cliRun(c, "fbp", rf, bf)
-		t := cliRun(c, "tbe", rf, bf)
+		// the hidden aliases `classical` / `booster` are commands of their own (cmd/classical.go, cmd/booster.go)
+		fcmd, tcmd := "fbp", "tbe"
+		if c.G.Chance(0.3) {
+			fcmd, tcmd = "classical", "booster"
+		}
+		f := cliRun(c, fcmd, rf, bf)
+		t := cliRun(c, tcmd, rf, bf)
 		c.Emit("C10.sup", mode, pref.Dump(), core.Dumps(pboots), f.out, f.after, t.out, t.after)
 		return f, t
 	}
@@ -649,6 +654,56 @@ func doSup(c *core.Ctx, mode string, ref *core.N, boots []*core.N) (result, resu
 	t := libTBE(ref, boots)
 	c.Emit("C10.sup", mode, ref.Dump(), core.Dumps(boots), f.out, f.after, t.out, t.after)
 	return f, t
+}
+
+
+// doMtd calls support.MinTransferDist directly (no goroutine there) on every
+// non-trivial branch of the reference against one bootstrap tree, with and
+// without the `absent` shortcut, and emits the distances.
+func doMtd(c *core.Ctx, ref, boot *core.N) {
+	var items []string
+	out := "ok"
+	p, msg := core.Safe(func() {
+		t := build(ref)
+		b := build(boot)
+		if err := t.ReinitIndexes(); err != nil {
+			out = "err"
+			return
+		}
+		if err := b.ReinitIndexes(); err != nil {
+			out = "err"
+			return
+		}
+		if err := t.CompareTipIndexes(b); err != nil {
+			out = "err"
+			return
+		}
+		bootedges := b.Edges()
+		for i, e := range bootedges {
+			e.SetId(i) // as TBE does
+		}
+		ntips := len(t.Tips())
+		for i, e := range t.Edges() {
+			if d, _ := e.TopoDepth(); d > 1 {
+				for _, absent := range []bool{false, true} {
+					dist, _, _, _ := support.MinTransferDist(e, t, b, ntips, bootedges, absent)
+					a := 0
+					if absent {
+						a = 1
+					}
+					items = append(items, fmt.Sprintf("%d:%d:%d", i, a, dist))
+				}
+			}
+		}
+	})
+	if p {
+		out = "panic:" + core.Escape(msg)
+	}
+	res := ""
+	if len(items) > 0 {
+		res = strings.Join(items, ",") + ","
+	}
+	c.Emit("C10.mtd", ref.Dump(), boot.Dump(), out, res)
 }
 
 // doInv: the same trees presented otherwise must give the same supports per split.
@@ -699,6 +754,16 @@ func Replay(c *core.Ctx, lines []string) {
 				mode = "lib"
 			}
 			doSup(c, mode, ref, parseDumps(f[3]))
+		case f[0] == "C10.mtd" && len(f) >= 3:
+			r1, err := core.ParseDump(f[1])
+			if err != nil {
+				panic(err)
+			}
+			b1, err := core.ParseDump(f[2])
+			if err != nil {
+				panic(err)
+			}
+			doMtd(c, r1, b1)
 		case f[0] == "C10.inv" && len(f) >= 7:
 			r1, err := core.ParseDump(f[1])
 			if err != nil {
@@ -777,6 +842,7 @@ func genCase(c *core.Ctx, mode string) {
 	if mode != "lib" || mismatch || special || k == 0 || f.out != "ok" || t.out != "ok" {
 		return
 	}
+	doMtd(c, ref, boots[g.Intn(len(boots))])
 	// the same input presented otherwise
 	ref2 := represent(g, ref, false)
 	core.NumberEdges(ref2)
